@@ -1,72 +1,140 @@
 import TR.Lemmas.RateLimiter
+import TR.Lemmas.RateLimiterLog
+import TR.Lemmas.RateLimiterF64
 /-!
 # C15 — the rate limiter decides every call within its timeout; rejected calls go nowhere
 
-Quantification as for C02 (all window types, `limit ≥ 1`, `period ≥ 1`, all timeouts, all
-operation lists: any number of callers, all arrival / poll / cancellation orders and instants,
-all allowed observed choices). "Arrival" is the first poll of the call future: `acquire()` runs
-inside the boxed `async` block of `RateLimiter::call`, so nothing happens before that poll and
+Quantification as for C02 (all window types, all timeouts, all operation lists: any number of callers, all arrival /
+poll / cancellation orders and instants, all allowed observed choices). The routing clauses (`rejected_never_inner`,
+`admitted_exactly_once`) and the decision-instant clause hold for EVERY configuration, `limit = 0`, `period = 0` and
+zero wait estimates included; the clauses about permits need C02's `Good cfg`. "Arrival" is the first poll of the call
+future: `acquire()` runs inside the boxed `async` block of `RateLimiter::call`, so nothing happens before that poll and
 the sleep (if any) starts in it.
+
+Decision instants. `(run cfg ops).tlog` is the event log with the instant printed in front of every line (`C02`);
+`decStamps` picks the `(caller, instant)` of its decision lines — `inner_call c …` and `result c err:ratelimited`;
+the ghost `decided` holds `(caller, arrival, decision instant)` and is tied to those lines by
+`decisions_are_the_decision_lines`.
 -/
 namespace TR.Props.C15
 open TR TR.RateLimiter
 
-/-- Decided within the timeout, part 1: the first poll of a call either decides it (admitted or
+/-! ### decided within the timeout -/
+
+/-- The ghost decision record is the log: the decisions filed are, in order, exactly the `inner_call` /
+`result … err:ratelimited` lines of the log with the instants printed in front of them; at most one per caller is
+implied by `admitted_exactly_once` / `rejected_never_inner`; no decision is earlier than the arrival it is filed with. -/
+theorem decisions_are_the_decision_lines (cfg : Cfg) (ops : List Op) :
+    (run cfg ops).decided.map (fun d => (d.1, d.2.2)) = decStamps (run cfg ops).tlog ∧
+    ∀ d ∈ (run cfg ops).decided, d.2.1 ≤ d.2.2 :=
+  let h := tinv_reachable cfg ops
+  ⟨h.dec, h.decArr⟩
+
+/-- **Every call is decided within `timeout_duration` of its arrival** — stated on the decision lines of the log,
+for every configuration, under the poll discipline `Prompt` as the one explicit hypothesis (time is not advanced
+past the instant by which a sleeping caller's timer must have fired without that caller being polled: "polled when
+woken"; a poll that late must observe `woke` and decides, `decided_within_timeout_due_poll`): every decision line
+`t=<t> inner_call c …` / `t=<t> result c err:ratelimited` belongs to a caller that arrived at some `arr` with
+`arr ≤ t ≤ arr + timeout_duration`. -/
+theorem decided_within_timeout (cfg : Cfg) (ops : List Op) (hp : Prompt cfg (init cfg) ops) (c t : Nat)
+    (h : (c, t) ∈ decStamps (run cfg ops).tlog) :
+    ∃ arr, (c, arr, t) ∈ (run cfg ops).decided ∧ arr ≤ t ∧ t ≤ arr + cfg.timeout := by
+  rw [← (tinv_reachable cfg ops).dec] at h
+  obtain ⟨d, hd, he⟩ := List.mem_map.mp h
+  obtain ⟨c', arr, t'⟩ := d
+  simp only [Prod.mk.injEq] at he
+  obtain ⟨rfl, rfl⟩ := he
+  exact ⟨arr, hd, (tinv_reachable cfg ops).decArr _ hd, (dinv_reachable cfg ops hp).dec _ hd⟩
+
+/-- … and nobody is left undecided beyond it: under the same discipline a caller that is still asleep is within
+`arrival + timeout_duration` (a caller that has never been polled has not arrived). -/
+theorem undecided_still_within_timeout (cfg : Cfg) (ops : List Op) (hp : Prompt cfg (init cfg) ops)
+    (c arr lo hi : Nat) (hph : phaseOf (run cfg ops) c = some (.sleeping arr lo hi)) :
+    (run cfg ops).now ≤ hi ∧ hi ≤ arr + cfg.timeout :=
+  ⟨(dinv_reachable cfg ops hp).awake c arr lo hi hph, ((inv_reachable cfg ops).sleep c arr lo hi hph).2.2.1⟩
+
+/-- Without the discipline a decision can be late only by the lateness of the poll: whatever the schedule, a
+decision line of a caller that was told to wait is stamped with the instant of the poll that took it, and a first
+poll decides at the arrival instant itself or files nothing. (One step of `decided`.) -/
+theorem decision_is_stamped_with_its_poll (cfg : Cfg) (s : State) (op : Op) (hop : ∀ ms, op ≠ .adv ms) :
+    ∃ evs dec, (stepS cfg s op).decided = s.decided ++ dec ∧ (stepS cfg s op).tlog = s.tlog ++ stamp s.now evs ∧
+      dec.map (fun d => (d.1, d.2.2)) = (stamp s.now evs).filterMap decStamp ∧
+      ∀ d ∈ dec, d.2.2 = s.now ∧ (d.2.1 = s.now ∨ ∃ lo hi, phaseOf s d.1 = some (.sleeping d.2.1 lo hi)) := by
+  obtain ⟨evs, dec, hd, hok⟩ := stepS_delta cfg s op hop
+  exact ⟨evs, dec, hd.dec, hd.tlog, hd.decS, fun d hdm => ⟨hd.decT d hdm, hok d hdm⟩⟩
+
+/-- Decided within the timeout, step by step, part 1: the first poll of a call either decides it (admitted or
 rejected) in that very step, or puts it to sleep with a timer due no later than
 `arrival + timeout_duration` — or the observed choice fed to the model was outside what the code
 guarantees (then nothing happens except the `choice-not-allowed` mark). -/
-theorem decided_within_timeout_first_poll (cfg : Cfg) (ops : List Op) (c : Nat) (rej woke : Bool)
+theorem decided_within_timeout_first_poll (cfg : Cfg) (ops : List Op) (c : Nat) (rej woke : Bool) (fx : Fx)
     (hph : phaseOf (run cfg ops) c = some .fresh) :
     let s := run cfg ops
-    let s' := stepS cfg s (.poll c rej woke)
+    let s' := stepS cfg s (.poll c rej woke fx)
     Decided (phaseOf s' c) ∨
     (∃ lo hi, phaseOf s' c = some (.sleeping s.now lo hi) ∧ hi ≤ s.now + cfg.timeout) ∨
-    s' = badChoice { s with lim := (room cfg s.lim s.now).1 } := by
+    s' = badChoice { s with lim := (room cfg s.lim s.now fx).1 } := by
   simp only [stepS, hph]
-  exact pollFresh_outcome cfg (run cfg ops) c rej
+  exact pollFresh_outcome cfg (run cfg ops) c rej fx
 
-/-- Decided within the timeout, part 2: in every reachable state a sleeping caller's timer fires
+/-- Part 2: in every reachable state of every configuration a sleeping caller's timer fires
 at an instant in `[lo, hi]` with `arrival < lo ≤ hi ≤ arrival + timeout_duration` (a wait is only
 ever issued with `0 < d ≤ timeout`). -/
-theorem decided_within_timeout_deadline (cfg : Cfg) (hL : 1 ≤ cfg.limit) (hP : 1 ≤ cfg.period)
+theorem decided_within_timeout_deadline (cfg : Cfg)
     (ops : List Op) (c arr lo hi : Nat)
     (hph : phaseOf (run cfg ops) c = some (.sleeping arr lo hi)) :
     arr < lo ∧ lo ≤ hi ∧ hi ≤ arr + cfg.timeout := by
-  obtain ⟨h1, h2, h3, _, _⟩ := (inv_reachable cfg hL hP ops).sleep c arr lo hi hph
+  obtain ⟨h1, h2, h3, _, _⟩ := (inv_reachable cfg ops).sleep c arr lo hi hph
   exact ⟨h1, h2, h3⟩
 
-/-- Decided within the timeout, part 3: once the instant `hi` has been reached the timer must
+/-- Part 3: once the instant `hi` has been reached the timer must
 have fired (`woke = false` is not an allowed observation), and the poll that sees it decides the
 caller in that step: the second `try_acquire` admits or rejects, it never waits again. -/
-theorem decided_within_timeout_due_poll (cfg : Cfg) (ops : List Op) (c arr lo hi : Nat) (rej : Bool)
+theorem decided_within_timeout_due_poll (cfg : Cfg) (ops : List Op) (c arr lo hi : Nat) (rej : Bool) (fx : Fx)
     (hph : phaseOf (run cfg ops) c = some (.sleeping arr lo hi))
     (hdue : hi ≤ (run cfg ops).now) (hlo : lo ≤ hi) :
-    Decided (phaseOf (stepS cfg (run cfg ops) (.poll c rej true)) c) ∧
-    stepS cfg (run cfg ops) (.poll c rej false) = badChoice (run cfg ops) := by
-  obtain ⟨h1, h2⟩ := pollSleeping_due cfg (run cfg ops) c arr lo hi hdue hlo
+    Decided (phaseOf (stepS cfg (run cfg ops) (.poll c rej true fx)) c) ∧
+    stepS cfg (run cfg ops) (.poll c rej false fx) = badChoice (run cfg ops) := by
+  obtain ⟨h1, h2⟩ := pollSleeping_due cfg (run cfg ops) c arr lo hi fx hdue hlo
   constructor
-  · simp only [stepS, hph]; rw [h1]; exact secondTry_decides cfg _ c arr
+  · simp only [stepS, hph]; rw [h1]; exact secondTry_decides cfg _ c arr fx
   · simp only [stepS, hph]; exact h2
+
+/-- Non-vacuity of the discipline and of the bound, on the log (fixed window, limit 1, period 100, timeout 100):
+caller 1 admitted at 0; callers 2 and 3 arrive at 30 and sleep until 100, where both are polled — 2 takes the new
+window's permit, 3 is rejected: decision lines `(1,0) (2,100) (3,100)`, arrivals `0, 30, 30`, all within 100. The
+same history with the poll of caller 3 delayed by one tick violates the discipline (and its rejection is late). -/
+example :
+    let cfg : Cfg := { kind := .fixed, limit := 1, period := 100, timeout := 70 }
+    let ops := [Op.arrive 1 ⟨0, .ok⟩, .arrive 2 ⟨0, .ok⟩, .arrive 3 ⟨0, .ok⟩, .poll 1 false false,
+      .adv 30, .poll 2 false false, .poll 3 false false, .adv 70, .poll 2 false true, .poll 3 false true]
+    let late := [Op.arrive 1 ⟨0, .ok⟩, .arrive 2 ⟨0, .ok⟩, .arrive 3 ⟨0, .ok⟩, .poll 1 false false,
+      .adv 30, .poll 2 false false, .poll 3 false false, .adv 70, .poll 2 false true, .adv 1, .poll 3 false true]
+    Prompt cfg (init cfg) ops ∧ decStamps (run cfg ops).tlog = [(1, 0), (2, 100), (3, 100)] ∧
+    (run cfg ops).decided = [(1, 0, 0), (2, 30, 100), (3, 30, 100)] ∧
+    ¬ Prompt cfg (init cfg) late ∧ (run cfg late).decided = [(1, 0, 0), (2, 30, 100), (3, 30, 101)] := by decide
+
+/-! ### admitted at once with capacity; later only with a later permit; otherwise rejected -/
 
 /-- Admitted at once when the current window has spare capacity: if the `try_acquire` of a first
 poll finds room, the first new event of that step is the caller's `inner_call`. -/
-theorem admitted_at_once_if_capacity (cfg : Cfg) (ops : List Op) (c : Nat) (rej woke : Bool)
+theorem admitted_at_once_if_capacity (cfg : Cfg) (ops : List Op) (c : Nat) (rej woke : Bool) (fx : Fx)
     (hph : phaseOf (run cfg ops) c = some .fresh)
-    (hroom : (room cfg (run cfg ops).lim (run cfg ops).now).2 = true) :
-    ∃ rest, (stepS cfg (run cfg ops) (.poll c rej woke)).log
+    (hroom : (room cfg (run cfg ops).lim (run cfg ops).now fx).2 = true) :
+    ∃ rest, (stepS cfg (run cfg ops) (.poll c rej woke fx)).log
       = (run cfg ops).log ++ Ev.innerCall c (run cfg ops).serial :: rest := by
   simp only [stepS, hph]
-  exact pollFresh_admits cfg _ c rej hroom
+  exact pollFresh_admits cfg _ c rej fx hroom
 
 /-- "Spare capacity" for the fixed window: the window is over, or fewer than `limit` grants have
 been filed under the current window (`available_permits = limit − grants in this window`). -/
 theorem capacity_fixed (cfg : Cfg) (hk : cfg.kind = .fixed) (hL : 1 ≤ cfg.limit) (hP : 1 ≤ cfg.period)
-    (ops : List Op) :
+    (ops : List Op) (fx : Fx) :
     let s := run cfg ops
-    ((room cfg s.lim s.now).2 = true ↔ (s.now - s.lim.start ≥ cfg.period ∨ curLen s.lim < cfg.limit)) := by
-  have h := (inv_reachable cfg hL hP ops).lim.fixed hk
+    ((room cfg s.lim s.now fx).2 = true ↔ (s.now - s.lim.start ≥ cfg.period ∨ curLen s.lim < cfg.limit)) := by
+  have h := ((inv_reachable cfg ops).lim hP).fixed hk
   simp only
-  rw [room_fixed_iff cfg _ _ hk hL]
+  rw [room_fixed_iff cfg _ _ fx hk hL]
   constructor
   · intro h'; rcases h' with h' | h'
     · exact Or.inl h'
@@ -76,51 +144,91 @@ theorem capacity_fixed (cfg : Cfg) (hk : cfg.kind = .fixed) (hL : 1 ≤ cfg.limi
     · exact Or.inr (by omega)
 
 /-- "Spare capacity" for the sliding log: fewer than `limit` grants younger than one period. -/
-theorem capacity_log (cfg : Cfg) (hk : cfg.kind = .slog) (ops : List Op) :
+theorem capacity_log (cfg : Cfg) (hk : cfg.kind = .slog) (ops : List Op) (fx : Fx) :
     let s := run cfg ops
-    ((room cfg s.lim s.now).2 = true ↔ (expire cfg.period s.now s.lim.ts).length < cfg.limit) :=
-  room_log_iff cfg _ _ hk
+    ((room cfg s.lim s.now fx).2 = true ↔ (expire cfg.period s.now s.lim.ts).length < cfg.limit) :=
+  room_log_iff cfg _ _ fx hk
+
+/-- "Spare capacity" for the sliding counter: after the bucket rotation the weighted count
+`previous·(1 − elapsed/bucket) + current` is below the limit — or exactly the limit part-way into a bucket, off the
+dyadic grid on which the `f64` evaluation is exact (`f64Exact`), while the code's `f64` comparison said "below" (observed). -/
+theorem capacity_counter (cfg : Cfg) (hk : cfg.kind = .counter) (ops : List Op) (fx : Fx) :
+    let s := run cfg ops
+    let l := counterRoll cfg s.lim s.now fx.b1
+    ((room cfg s.lim s.now fx).2 = true ↔
+      (l.prev * (cfg.period - (s.now - l.start)) + l.cur * cfg.period < cfg.limit * cfg.period ∨
+        (onBoundary cfg l (s.now - l.start) = true ∧ fx.adm = true))) :=
+  room_counter_iff cfg _ _ fx hk
 
 /-- Admitted later only by taking a permit of a later window: when a poll admits a caller that
 had been told to wait, its second `try_acquire` took a permit at this instant, which is later
 than its arrival; the admission is recorded at this instant; and for the fixed window the permit
 belongs to a window that began after the caller arrived. -/
-theorem later_admission_takes_later_permit (cfg : Cfg) (hL : 1 ≤ cfg.limit) (hP : 1 ≤ cfg.period)
-    (ops : List Op) (c arr lo hi : Nat) (rej woke : Bool)
+theorem later_admission_takes_later_permit (cfg : Cfg) (hG : Good cfg)
+    (ops : List Op) (c arr lo hi : Nat) (rej woke : Bool) (fx : Fx)
     (hph : phaseOf (run cfg ops) c = some (.sleeping arr lo hi))
-    (hadm : Admitted (phaseOf (stepS cfg (run cfg ops) (.poll c rej woke)) c)) :
+    (hadm : Admitted (phaseOf (stepS cfg (run cfg ops) (.poll c rej woke fx)) c)) :
     let s := run cfg ops
-    let s' := stepS cfg s (.poll c rej woke)
-    (room cfg s.lim s.now).2 = true ∧ arr < s.now ∧
+    let s' := stepS cfg s (.poll c rej woke fx)
+    (room cfg s.lim s.now fx).2 = true ∧ arr < s.now ∧
     s'.lim.grants = s.lim.grants ++ [s.now] ∧ s'.admits = s.admits ++ [(c, s.now)] ∧
     (cfg.kind = .fixed → arr < s'.lim.start) :=
-  sleeper_admission cfg (run cfg ops) c arr lo hi rej woke hL (inv_reachable cfg hL hP ops) hph hadm
+  sleeper_admission cfg (run cfg ops) c arr lo hi rej woke fx hG (inv_reachable cfg ops) hph hadm
+
+/-- "Otherwise rejected": a caller is only ever rejected by a `try_acquire` that found no permit — at its first
+poll, or by the second `try_acquire` after its sleep. (Which of "rejected at once" / "told to wait" a first poll
+without room chooses is `noRoomAns`: the needed wait exceeds the timeout, exactly for the fixed window and the log.) -/
+theorem rejected_only_without_room (cfg : Cfg) (s : State) (c : Nat) (rej woke : Bool) (fx : Fx)
+    (hph : phaseOf s c = some .fresh ∨ ∃ arr lo hi, phaseOf s c = some (.sleeping arr lo hi))
+    (hrej : phaseOf (stepS cfg s (.poll c rej woke fx)) c = some (.done false)) :
+    (room cfg s.lim s.now fx).2 = false := by
+  cases hr : (room cfg s.lim s.now fx).2 with
+  | false => rfl
+  | true =>
+    exfalso
+    have hadm : ∀ arr, phaseOf (admitCall { s with lim := (room cfg s.lim s.now fx).1 } c arr) c ≠ some (.done false) := by
+      intro arr h
+      have := (admitCall_frame { s with lim := (room cfg s.lim s.now fx).1 } c arr).2.2.2
+      rw [h] at this; exact this
+    rcases hph with hph | ⟨arr, lo, hi, hph⟩
+    · simp only [stepS, hph, pollFresh, hr, if_true] at hrej
+      exact hadm _ hrej
+    · simp only [stepS, hph] at hrej
+      unfold pollSleeping at hrej
+      split at hrej
+      · change phaseOf s c = _ at hrej; rw [hph] at hrej; cases hrej
+      · split at hrej
+        · simp only [secondTry, hr, if_true] at hrej
+          exact hadm _ hrej
+        · rw [hph] at hrej; cases hrej
+
+/-! ### rejected calls go nowhere, admitted calls reach the wrapped service exactly once (every configuration) -/
 
 /-- A rejected call never reaches the wrapped service: if the trace contains the rate-limited
 error for `c`, it contains no `inner_call` for `c`. -/
-theorem rejected_never_inner (cfg : Cfg) (hL : 1 ≤ cfg.limit) (hP : 1 ≤ cfg.period) (ops : List Op)
+theorem rejected_never_inner (cfg : Cfg) (ops : List Op)
     (c : Nat) (h : Ev.result c .rateLimited ∈ (run cfg ops).log) :
     callsOf c (run cfg ops).log = 0 := by
-  have hi := inv_reachable cfg hL hP ops
+  have hi := inv_reachable cfg ops
   rw [callsOf_eq cfg _ hi, hi.rl c h]; rfl
 
 /-- A caller turned away because the wrapped service was not ready (`poll_ready` pending at its
 arrival: no call future was made) never reaches the wrapped service. -/
-theorem not_ready_never_inner (cfg : Cfg) (hL : 1 ≤ cfg.limit) (hP : 1 ≤ cfg.period) (ops : List Op)
+theorem not_ready_never_inner (cfg : Cfg) (ops : List Op)
     (c : Nat) (h : Ev.result c .notReady ∈ (run cfg ops).log) :
     callsOf c (run cfg ops).log = 0 := by
-  have hi := inv_reachable cfg hL hP ops
+  have hi := inv_reachable cfg ops
   rw [callsOf_eq cfg _ hi, hi.nr c h]; rfl
 
 /-- An admitted call reaches the wrapped service exactly once: any other result delivered to `c`
 (success, inner error, panic) comes with exactly one `inner_call` for `c`; and no caller ever has
 more than one. -/
-theorem admitted_exactly_once (cfg : Cfg) (hL : 1 ≤ cfg.limit) (hP : 1 ≤ cfg.period) (ops : List Op)
+theorem admitted_exactly_once (cfg : Cfg) (ops : List Op)
     (c : Nat) :
     (∀ r, r ≠ Res.rateLimited → r ≠ Res.notReady → Ev.result c r ∈ (run cfg ops).log →
         callsOf c (run cfg ops).log = 1) ∧
     callsOf c (run cfg ops).log ≤ 1 := by
-  have hi := inv_reachable cfg hL hP ops
+  have hi := inv_reachable cfg ops
   constructor
   · intro r hr hr2 hm
     rw [callsOf_eq cfg _ hi, hi.res c r hr hr2 hm]; rfl
@@ -128,37 +236,107 @@ theorem admitted_exactly_once (cfg : Cfg) (hL : 1 ≤ cfg.limit) (hP : 1 ≤ cfg
     unfold admittedPh
     split <;> omega
 
+/-- Non-vacuity with a not-ready arrival: caller 2 arrives while the wrapped service is busy and is turned away;
+it never reaches the wrapped service, caller 1 exactly once. -/
+example :
+    let cfg : Cfg := { kind := .slog, limit := 1, period := 100, timeout := 0 }
+    let s := run cfg [.arrive 1 ⟨0, .ok⟩, .poll 1 false false, .busy 50, .arrive 2 ⟨0, .ok⟩]
+    Ev.result 2 .notReady ∈ s.log ∧ callsOf 2 s.log = 0 ∧ callsOf 1 s.log = 1 := by decide
+
+/-! ### after two idle periods -/
+
 /-- After the limiter has been idle for two full periods (no `try_acquire` since
 `now − 2·period`), the next `limit_for_period` `try_acquire`s all take a permit, at whatever
 non-decreasing instants they come — so (by `admitted_at_once_if_capacity`) the next
-`limit_for_period` calls are admitted without waiting. All three window types. -/
-theorem idle_two_periods_refills (cfg : Cfg) (hL : 1 ≤ cfg.limit) (hP : 1 ≤ cfg.period)
+`limit_for_period` calls are admitted without waiting. All three window types. Hypothesis `hb`: the `f64` bucket
+count of the sliding counter does not slip at exactly two buckets (`b1 = false`; it is only ever looked at when the
+idle stretch, measured from the bucket start, is exactly two periods). It is needed: see `idle_exactly_two_periods_f64_slip`. -/
+theorem idle_two_periods_refills (cfg : Cfg) (hP : 1 ≤ cfg.period)
     (ops : List Op) (hidle : (run cfg ops).lim.lastTry + 2 * cfg.period ≤ (run cfg ops).now)
-    (ts : List Nat) (hm : Mono (run cfg ops).now ts) (hlen : ts.length ≤ cfg.limit) :
+    (ts : List (Nat × Fx)) (hm : Mono (run cfg ops).now (ts.map Prod.fst)) (hlen : ts.length ≤ cfg.limit)
+    (hb : ∀ p ∈ ts, p.2.b1 = false) :
     AllGranted cfg (run cfg ops).lim ts :=
-  spare_all cfg hP ts _ _ _ (idle_spare cfg _ _ (inv_reachable cfg hL hP ops).lim hidle) hm hlen
+  spare_all false cfg hP ts (fun _ => hb) _ _ _ (idle_spare cfg _ _ ((inv_reachable cfg ops).lim hP) hidle) hm hlen
+
+/-- After MORE than two periods of idleness the refill holds whatever the observed choices are. -/
+theorem idle_longer_refills (cfg : Cfg) (hP : 1 ≤ cfg.period)
+    (ops : List Op) (hidle : (run cfg ops).lim.lastTry + 2 * cfg.period < (run cfg ops).now)
+    (ts : List (Nat × Fx)) (hm : Mono (run cfg ops).now (ts.map Prod.fst)) (hlen : ts.length ≤ cfg.limit) :
+    AllGranted cfg (run cfg ops).lim ts :=
+  spare_all true cfg hP ts (fun h => by cases h) _ _ _
+    (idle_spare_strict cfg _ _ ((inv_reachable cfg ops).lim hP) hidle) hm hlen
+
+/-- The same at caller level, on the log: after two idle periods, up to `limit_for_period` distinct callers that
+are polled for the first time one after the other (at this instant) are ALL admitted by that first poll — each has
+exactly one `inner_call` line, nobody sleeps, nobody is rejected. -/
+theorem idle_refill_callers (cfg : Cfg) (hP : 1 ≤ cfg.period) (ops : List Op)
+    (hidle : (run cfg ops).lim.lastTry + 2 * cfg.period ≤ (run cfg ops).now)
+    (cs : List (Nat × Bool × Bool × Fx)) (hfresh : ∀ p ∈ cs, phaseOf (run cfg ops) p.1 = some .fresh)
+    (hnd : (cs.map Prod.fst).Nodup) (hlen : cs.length ≤ cfg.limit) (hb : ∀ p ∈ cs, p.2.2.2.b1 = false) :
+    ∀ p ∈ cs, Admitted (phaseOf (run cfg (ops ++ pollsOf cs)) p.1) ∧
+      callsOf p.1 (run cfg (ops ++ pollsOf cs)).log = 1 := by
+  intro p hp
+  have hrun : run cfg (ops ++ pollsOf cs) = (pollsOf cs).foldl (stepS cfg) (run cfg ops) := by
+    unfold run; rw [List.foldl_append]
+  have hadm := refill_polls cfg hP cs (run cfg ops) cfg.limit
+    (idle_spare cfg _ _ ((inv_reachable cfg ops).lim hP) hidle) hlen hfresh hnd hb p hp
+  rw [← hrun] at hadm
+  refine ⟨hadm, ?_⟩
+  rw [callsOf_eq cfg _ (inv_reachable cfg _)]
+  revert hadm
+  generalize phaseOf (run cfg (ops ++ pollsOf cs)) p.1 = ph
+  intro hadm
+  match ph, hadm with
+  | some (.running _), _ => rfl
+  | some (.done true), _ => rfl
+
+/-- Non-vacuity: sliding log, limit 2, full at t = 0; idle until t = 200 = two periods; callers 3 and 4 are both
+admitted at their first poll. -/
+example :
+    let cfg : Cfg := { kind := .slog, limit := 2, period := 100, timeout := 0 }
+    let ops := [Op.arrive 1 ⟨0, .ok⟩, .arrive 2 ⟨0, .ok⟩, .poll 1 false false, .poll 2 false false, .adv 200,
+      .arrive 3 ⟨0, .ok⟩, .arrive 4 ⟨0, .ok⟩]
+    (run cfg ops).lim.lastTry + 2 * cfg.period ≤ (run cfg ops).now ∧
+    phaseOf (run cfg ops) 3 = some .fresh ∧ phaseOf (run cfg ops) 4 = some .fresh ∧
+    decStamps (run cfg (ops ++ pollsOf [(3, false, false, {}), (4, false, false, {})])).tlog
+      = [(1, 0), (2, 0), (3, 200), (4, 200)] := by decide
+
+/-- **The hypothesis `hb` is needed, and the code does slip.** Sliding counter, limit 1, bucket 559 ms, timeout 0:
+one call at t = 0, idle for exactly two periods, next call at t = 1118. `elapsed.as_secs_f64()` is
+`1.0 + 0.118 = 1.1179999999999999`, divided by `0.559` that is `1.9999999999999996`, `as u32` gives 1, so
+`maybe_rotate_bucket` keeps the old count as `previous_count` instead of clearing it: the
+weighted count is 1 = limit and the call is REJECTED although the limiter has been idle for two full periods. The
+model reproduces it when fed the observation `b1`; with `b1 = false` it admits. Real-code witness:
+`corpus/ratelimiter/c15-idle-two-periods-f64.ops`. -/
+theorem idle_exactly_two_periods_f64_slip :
+    let cfg : Cfg := { kind := .counter, limit := 1, period := 559, timeout := 0 }
+    let ops := [Op.arrive 1 ⟨0, .ok⟩, .poll 1 false false, .adv 1118, .arrive 2 ⟨0, .ok⟩]
+    (run cfg ops).lim.lastTry + 2 * cfg.period ≤ (run cfg ops).now ∧
+    Ev.result 2 .rateLimited ∈ (run cfg (ops ++ [.poll 2 true false { b1 := true }])).log ∧
+    Ev.innerCall 2 1 ∈ (run cfg (ops ++ [.poll 2 true false])).log := by decide
 
 /-- The same for every service built from one layer value, separately: each has a limiter of its own (its own
 time starts when it is built), so the idle period, the refill and the routing of rejected / admitted calls are
 per service — `C02.each_service_is_one_limiter` carries every theorem of this file over; here the idle refill and
 "rejected calls go nowhere, admitted calls reach the wrapped service exactly once" are spelt out. -/
-theorem each_service_idle_refills (cfg : Cfg) (hL : 1 ≤ cfg.limit) (hP : 1 ≤ cfg.period) (ops : List FOp)
+theorem each_service_idle_refills (cfg : Cfg) (hP : 1 ≤ cfg.period) (ops : List FOp)
     (k : Nat) (s : State) (h : lookup (frun cfg ops).insts k = some s)
     (hidle : s.lim.lastTry + 2 * cfg.period ≤ s.now)
-    (ts : List Nat) (hm : Mono s.now ts) (hlen : ts.length ≤ cfg.limit) :
+    (ts : List (Nat × Fx)) (hm : Mono s.now (ts.map Prod.fst)) (hlen : ts.length ≤ cfg.limit)
+    (hb : ∀ p ∈ ts, p.2.b1 = false) :
     AllGranted cfg s.lim ts := by
   obtain ⟨ops', rfl⟩ := frun_reach cfg ops k s h
-  exact idle_two_periods_refills cfg hL hP ops' hidle ts hm hlen
+  exact idle_two_periods_refills cfg hP ops' hidle ts hm hlen hb
 
-theorem each_service_routes (cfg : Cfg) (hL : 1 ≤ cfg.limit) (hP : 1 ≤ cfg.period) (ops : List FOp)
+theorem each_service_routes (cfg : Cfg) (ops : List FOp)
     (k : Nat) (s : State) (h : lookup (frun cfg ops).insts k = some s) (c : Nat) :
     (Ev.result c .rateLimited ∈ s.log → callsOf c s.log = 0) ∧
     (Ev.result c .notReady ∈ s.log → callsOf c s.log = 0) ∧
     (∀ r, r ≠ Res.rateLimited → r ≠ Res.notReady → Ev.result c r ∈ s.log → callsOf c s.log = 1) ∧
     callsOf c s.log ≤ 1 := by
   obtain ⟨ops', rfl⟩ := frun_reach cfg ops k s h
-  exact ⟨rejected_never_inner cfg hL hP ops' c, not_ready_never_inner cfg hL hP ops' c,
-    (admitted_exactly_once cfg hL hP ops' c).1, (admitted_exactly_once cfg hL hP ops' c).2⟩
+  exact ⟨rejected_never_inner cfg ops' c, not_ready_never_inner cfg ops' c,
+    (admitted_exactly_once cfg ops' c).1, (admitted_exactly_once cfg ops' c).2⟩
 
 /-- A caller cancelled while waiting (or before its first poll) consumes nothing: the limiter
 state, the admissions and the trace are exactly what they were. (A `wait` answer never took a
